@@ -329,12 +329,19 @@ def san_kind(err):
     return None
 
 
+def _brief(err):
+    """summary line + the first frames of the first stack of a sanitizer report"""
+    keep = [ln.strip() for ln in err.splitlines() if re.search(r"ERROR: AddressSanitizer|runtime error:|^(READ|WRITE) of size|is located", ln.strip())][:3]
+    frames = [ln.strip() for ln in err.split("\n\n")[0].splitlines() if re.match(r"\s*#\d+ ", ln)][:5]
+    return " | ".join(keep + frames)[:1200]
+
+
 def classify(res):
     """harness result line -> (signature suffix, text)"""
     r, err = res["res"], res.get("err", "")
     sk = san_kind(err)
     if r == "san" or (sk and r in ("exit", "signal", "abort")):
-        return sk or "asan:other", "sanitizer report: %s\n%s" % (res.get("what", ""), err[:1800])
+        return sk or "asan:other", "sanitizer report %s %s" % (res.get("what", ""), _brief(err))
     if r == "mismatch":
         return "state", "state differs from the model: %s" % res["what"]
     if r == "alias":
